@@ -104,6 +104,20 @@ func runC17(c *Ctx) {
 		case 1:
 			db = da.Scale(-1)
 			c.Note("rotationto.antiparallel")
+		case 2, 3:
+			// nearly (anti)parallel: a small angle on a log scale from 1e-5 to 0.3 rad, either side of the snap threshold
+			ang := math.Pow(10, -5+c.Rng.Float64()*4.5)
+			perp := da.Cross(c.unit3())
+			if perp.Length() > 1e-3 {
+				perp = perp.Normalized()
+				db = da.Scale(math.Cos(ang)).Add(perp.Scale(math.Sin(ang))).Normalized()
+				if c.Rng.Intn(2) == 0 {
+					db = db.Scale(-1)
+					c.Note("rotationto.near_antiparallel")
+				} else {
+					c.Note("rotationto.near_parallel")
+				}
+			}
 		default:
 			c.Note("rotationto.generic")
 		}
